@@ -269,6 +269,8 @@ def check(case):
                 good_resets += 1
             log.append(r_out)
             if kind.startswith('dt'):
+                if isinstance(r_out, float) and r_out != r_out and isinstance(s_out, float) and s_out != s_out:
+                    return DISCARD('nan', labels)       # inf - inf in both monitors (warm-up of a pastified monitor): undefined case
                 ok = same(r_out, s_out, False)
             else:
                 ok = r_out == s_out
